@@ -359,6 +359,66 @@ def r6_delegation(rep, facts):
         rep.check(R, label, 'as_default' in names and bld in paths, f'{bld}::new(..).as_default()', f'`{label}` no longer goes through {bld}::as_default (calls {sorted(names)})', facts.loc(b))
 
 
+def r7_run_metric(rep, facts):
+    R = rep.rule('C10/R7', 'the quote-run metrics are running maxima: tabulating one iteration of ValueMetrics::calculate over every byte and '
+                 'representative (current run, maximum so far) pairs, the run counter is run+1 (saturating) on the quote and 0 otherwise, and the '
+                 'maximum becomes max(maximum, new run) — the thresholds that refuse the literal / multi-line styles test the longest run, not the last', floor=4)
+    b = facts.body(W + 'ValueMetrics::calculate')
+    loops = [n for n in walk(b['body']) if n.get('k') == 'loop']
+    if len(loops) != 1:
+        rep.incomplete(R, 'ValueMetrics::calculate|loop', f'{len(loops)} loops found, expected the one over the bytes')
+        return
+    m = [n for n in walk(loops[0]) if n.get('k') == 'match' and 'ForLoop' in (n.get('src') or '')]
+    arm = [a for a in m[0]['arms'] if (a['pat'].get('path') or '').endswith('Some')][0] if m else None
+    if arm is None:
+        rep.incomplete(R, 'ValueMetrics::calculate|for', 'for-loop over the bytes not found')
+        return
+    bv = [x for x in walk(arm['pat']) if x.get('k') == 'p_bind'][0]['name']
+    locs = {}
+    for n in walk(b['body']):
+        if n.get('k') == 'let' and n['pat'].get('k') == 'p_bind' and 'init' in n and (n['pat'].get('t') or '') in ('u8', 'u16', 'u32', 'usize', 'u64'):
+            locs[n['pat']['name'].split('#')[0]] = (n['pat']['name'], n['pat']['t'])
+    it = FxInterp(Evaluator(facts))
+    loc = facts.loc(b)
+    for quote, run_name, max_name in ((0x27, 'prev_single_quotes', 'max_seq_single_quotes'), (0x22, 'prev_double_quotes', 'max_seq_double_quotes')):
+        if run_name not in locs:
+            rep.incomplete(R, f'{run_name}|present', f'run counter `{run_name}` not found')
+            continue
+        var, ty = locs[run_name]
+        top = {'u8': 255, 'u16': 65535}.get(ty, 2 ** 32)
+        other = [v for k, (v, _) in locs.items() if k != run_name]
+        bad_run = bad_max = None
+        n_eval = 0
+        try:
+            for byte in range(256):
+                for run in (0, 1, 2, 3, top - 1, top):
+                    for mx in sorted({run, run + 1 if run < top else run, 2, 3, top}):
+                        if mx < run:
+                            continue
+                        env = {bv: byte, var: run, '.' + max_name: mx}
+                        for o in other:
+                            env[o] = 0
+                        for f_ in ('max_seq_single_quotes', 'max_seq_double_quotes'):
+                            env.setdefault('.' + f_, 0)
+                        a, _ = it.effects(arm['body'], env)
+                        n_eval += 1
+                        new_run = a.get(run_name, run)
+                        new_max = a.get(max_name, mx)
+                        want_run = min(run + 1, top) if byte == quote else 0
+                        if new_run != want_run and bad_run is None:
+                            bad_run = (byte, run, new_run, want_run)
+                        if new_max != max(mx, want_run) and bad_max is None:
+                            bad_max = (byte, run, mx, new_max, max(mx, want_run))
+        except Unanalysable as e:
+            rep.incomplete(R, f'{run_name}|tabulate', str(e))
+            continue
+        rep.check(R, f'{run_name}|run-counter', bad_run is None, f'{n_eval} (byte, run, max) cases',
+                  f'run counter `{run_name}`: on byte {bad_run[0]:#04x} with run {bad_run[1]} it becomes {bad_run[2]}, expected {bad_run[3]}' if bad_run else '', loc)
+        rep.check(R, f'{max_name}|running-maximum', bad_max is None, 'max(maximum, new run)',
+                  (f'`{max_name}` is not the running maximum: on byte {bad_max[0]:#04x} with run {bad_max[1]} and maximum {bad_max[2]} it becomes {bad_max[3]}, expected {bad_max[4]} '
+                   f'(a long run followed by a shorter one is forgotten, so a literal style is offered for text containing its own delimiter)') if bad_max else '', loc)
+
+
 def rules(rep, facts):
     if 'toml_write' not in facts.crates:
         return
@@ -366,6 +426,7 @@ def rules(rep, facts):
     r3_thresholds(rep, facts, a)
     r4_delimiters(rep, facts, a)
     r5_totality(rep, facts)
+    r7_run_metric(rep, facts)
     feats = set(facts.crates.get('toml_edit', {}).get('features', []))
     if 'toml_edit' in facts.crates and {'parse', 'display'} <= feats:
         g = pm.model(facts)
